@@ -28,6 +28,17 @@ Definition print_def (fs : fspell) (d : defn) : result (list piece) :=
       Ok ([PL; PW "func"; PL; PW "type"; PW (dec (snd r)); PR] ++
           (match locals with [] => [] | _ => [PL; PW "local"] ++ map PW locals ++ [PR] end) ++
           body ++ [PR])
+  | DType params results =>
+      Ok ([PL; PW "type"; PL; PW "func"] ++
+          (match params with [] => [] | _ => [PL; PW "param"] ++ map PW params ++ [PR] end) ++
+          (match results with [] => [] | _ => [PL; PW "result"] ++ map PW results ++ [PR] end) ++
+          [PR; PR])
+  | DStart r => Ok [PL; PW "start"; PW (dec (snd r)); PR]
+  | DElem tab offset refs =>
+      if negb (snd tab =? 0) then Internal NotImplemented        (* "(table n)": not modelled *)
+      else
+        body <- print_instrs fs offset ;;
+        Ok ([PL; PW "elem"; PL; PW "offset"] ++ body ++ [PR] ++ map (fun r => PW (dec (snd r))) refs ++ [PR])
   | _ => Internal NotImplemented
   end.
 
@@ -85,6 +96,28 @@ Fixpoint parse_locals (fuel : nat) (ts : list tok) : result (list string * list 
       end
   end.
 
+(* (kw w1 w2 ...)* : _parse_type_bound_value_list / _parse_result_list, anonymous entries *)
+Fixpoint parse_groups (kw : string) (fuel : nat) (ts : list tok) : result (list string * list tok) :=
+  match fuel with
+  | O => OutOfFuel
+  | S f =>
+      match ts with
+      | TLpar :: TWord w :: r =>
+          if String.eqb w kw then
+            '(l, r1) <- parse_words (S (List.length r)) r ;;
+            '(l', r2) <- parse_groups kw f r1 ;; Ok (l ++ l', r2)
+          else Ok ([], ts)
+      | _ => Ok ([], ts)
+      end
+  end.
+
+(* while self._at_ref(): refs.append(self._parse_ref("func")) — numeric references *)
+Fixpoint parse_func_refs (ts : list tok) : list ref * list tok :=
+  match ts with
+  | TInt z :: r => let p := parse_func_refs r in (("func", z) :: fst p, snd p)
+  | _ => ([], ts)
+  end.
+
 Definition expect_rpar {A} (x : A) (ts : list tok) : result (A * list tok) :=
   match ts with TRpar :: r => Ok (x, r) | _ => Diag 13 end.
 
@@ -138,6 +171,76 @@ Definition parse_def (fs : fspell) (ts : list tok) : result (defn * list tok) :=
             else Internal NotImplemented
         | _ => Internal NotImplemented
         end
+      else if String.eqb kind "type" then
+        match r with
+        | TLpar :: TWord w :: r1 =>
+            if String.eqb w "func" then
+              '(params, r2) <- parse_groups "param" (S (List.length r1)) r1 ;;
+              '(results, r3) <- parse_groups "result" (S (List.length r2)) r2 ;;
+              match r3 with
+              | TRpar :: r4 => expect_rpar (DType params results) r4
+              | _ => Diag 13
+              end
+            else Diag 17
+        | _ => Internal NotImplemented
+        end
+      else if String.eqb kind "start" then
+        match r with
+        | TInt z :: r1 => expect_rpar (DStart ("func", z)) r1
+        | _ => Internal NotImplemented
+        end
+      else if String.eqb kind "elem" then
+        match r with
+        | TLpar :: TWord w :: r1 =>
+            if String.eqb w "offset" then
+              '(offset, r2) <- parse_instr_list fs (S (List.length r1)) r1 ;;
+              match r2 with
+              | TRpar :: r3 =>
+                  let p := parse_func_refs r3 in
+                  match snd p with
+                  | TRpar :: r4 => Ok (DElem ("table", 0) offset (fst p), r4)
+                  | _ => Internal NotImplemented           (* func / funcref item lists *)
+                  end
+              | _ => Diag 13
+              end
+            else Internal NotImplemented
+        | _ => Internal NotImplemented
+        end
+      else Internal NotImplemented
+  | _ => Diag 16
+  end.
+
+(* ---- the (module ...) loop of parse_module; definitions in text order ---- *)
+Fixpoint print_defs (fs : fspell) (l : list defn) : result (list piece) :=
+  match l with
+  | [] => Ok []
+  | d :: r => a <- print_def fs d ;; b <- print_defs fs r ;; Ok (a ++ b)
+  end.
+Definition print_module (fs : fspell) (l : list defn) : result (list piece) :=
+  b <- print_defs fs l ;; Ok ([PL; PW "module"] ++ b ++ [PR]).
+
+Fixpoint parse_defs (fs : fspell) (fuel : nat) (ts : list tok) : result (list defn * list tok) :=
+  match fuel with
+  | O => OutOfFuel
+  | S f =>
+      match ts with
+      | TLpar :: _ => '(d, r) <- parse_def fs ts ;; '(l, r') <- parse_defs fs f r ;; Ok (d :: l, r')
+      | _ => Ok ([], ts)
+      end
+  end.
+Definition parse_module_text (fs : fspell) (ts : list tok) : result (list defn) :=
+  match ts with
+  | TLpar :: TWord w :: r =>
+      if String.eqb w "module" then
+        match r with
+        | TWord _ :: _ => Internal NotImplemented                    (* module $id *)
+        | _ =>
+            '(l, r1) <- parse_defs fs (S (List.length r)) r ;;
+            match r1 with
+            | [TRpar] => Ok l
+            | _ => Diag 13
+            end
+        end
       else Internal NotImplemented
   | _ => Diag 16
   end.
@@ -153,6 +256,20 @@ Definition text_def_parse_val (fs : fspell) (d : defn) : val :=
   match print_def fs d with
   | Ok ps => match parse_def fs (lex ps) with
              | Ok (d', []) => VOk (defn_val d')
+             | _ => VInternal
+             end
+  | _ => VFuel
+  end.
+
+Definition text_module_print_val (fs : fspell) (l : list defn) : val :=
+  match print_module fs l with
+  | Ok ps => VOk (VL (map tok_val (lex ps)))
+  | Diag _ => VDiag | Internal _ => VInternal | OutOfFuel => VFuel
+  end.
+Definition text_module_parse_val (fs : fspell) (l : list defn) : val :=
+  match print_module fs l with
+  | Ok ps => match parse_module_text fs (lex ps) with
+             | Ok l' => VOk (VL (map defn_val l'))
              | _ => VInternal
              end
   | _ => VFuel
